@@ -180,6 +180,8 @@ class Engine(object):
         self.pidx = {pid: i + 1 for i, (_, pid, _) in enumerate(f.params)}
         self.ptypes = {pid: t for (_, pid, t) in f.params}
         self.max_leaves = max_leaves
+        self.loops_of = {}
+        self._index_loops(f.body, [])
         self.order = {n: i for i, n in enumerate(self.cfg.rpo())}
         self.flagpaths_by_root = {}
         for path in self.path2flag:
@@ -190,6 +192,39 @@ class Engine(object):
             self.flagpaths_by_root.setdefault(r, []).append(path)
         self.leaves = []
         self.nruns = 0
+
+    def _index_loops(self, n, loops):
+        self.loops_of[id(n)] = loops
+        inner = loops + [n] if n.k in ('For', 'While', 'Do') else loops
+        if n.k == 'For':
+            # init and condition belong to the enclosing context, body and increment to the loop
+            self._index_loops(n.c[0], loops)
+            self._index_loops(n.c[1], inner)
+            self._index_loops(n.c[2], inner)
+            self._index_loops(n.c[3], inner)
+            return
+        for c in n.c:
+            self._index_loops(c, inner)
+
+    def loop_info(self, ast, env):
+        """[(direction, abstract bound)] of the loops enclosing an AST node, outermost first"""
+        out = []
+        for lp in self.loops_of.get(id(ast), []):
+            d, bound = None, UNK
+            if lp.k == 'For':
+                inc = strip(lp.c[2])
+                if inc.k == 'Unary' and inc.a['op'] in ('++', '--'):
+                    d = 'up' if inc.a['op'] == '++' else 'down'
+                elif inc.k == 'Assign' and inc.a['op'] in ('+=', '-='):
+                    d = 'up' if inc.a['op'] == '+=' else 'down'
+                c = strip(lp.c[1])
+                if c.k == 'Binary' and c.a['op'] in ('<', '<=', '>', '>=', '!='):
+                    bound = self.eval_quiet(c.c[1], env)
+                    bexpr = c.c[1]
+                    out.append((d, bound, c.a['op'], bexpr))
+                    continue
+            out.append((d, bound, None, None))
+        return out
 
     # ------------------------------------------------------------ driver
     def run(self):
@@ -573,7 +608,7 @@ class Engine(object):
             ret = ('fresh', 'n%d' % self.cur_node.id)
         if self.want(name):
             self.cur_events.append({'kind': 'call', 'name': name, 'args': vals, 'argx': args, 'node': self.cur_node.id,
-                                    'line': e.line, 'inloop': self.cur_node.loop > 0})
+                                    'line': e.line, 'inloop': self.cur_node.loop > 0, 'loops': self.loop_info(e, env)})
         # generic effects: whatever the callee may write through its arguments is forgotten
         tgt = self.prog.resolve(name, self.f.unit)
         if tgt is not None:
@@ -788,7 +823,8 @@ class Engine(object):
                   'rhs_reads': self.reads_of(rhs, env) if rhs is not None else set(),
                   'rhs_idx_reads': self.index_reads_of(rhs, env) if rhs is not None else set(),
                   'idx_vals': self.scalar_idents(idx, env) if idx is not None else set(),
-                  'rhs_pairs': self.load_pairs(rhs, env) if rhs is not None else []}
+                  'rhs_pairs': self.load_pairs(rhs, env) if rhs is not None else [],
+                  'loops': self.loop_info(lv, env)}
             self.cur_events.append(ev)
         self.cur_stores = []
 
